@@ -185,13 +185,15 @@ package martian
 //@   serves C01 C02 C03 C05 C07
 //@   noframe
 //@   requires proxyReady(p) && ctxIdle(ctx) && sessionIdle(ctx.session) && conn != nil && brw != nil && brw.Writer != nil && brw.Reader != nil
+//@   requires !ctx.session.hijacked
 //@   modifies nReq, nRes, nUp, nWrite, bufio.Writer.gFlushed, bufio.Writer.gFailed, wroteErr, gotReq, up0, res0, wr0, didLink, closingSeen, nConnClose, nWarn, lastWarnHeader, ctxs[*], ctxmu.wheld, ctxmu.rheld
 //@   modifies http.Request.*, url.URL.*, http.Response.*, Session.hijacked, Session.secure, Session.conn, Session.brw, Context.skipRoundTrip, Context.skipLogging, Context.apiRequest
 //@   modifies sync.RWMutex.wheld, sync.RWMutex.rheld, dialN, lastDialed, lastDialErr, tls.Conn.gclosed, trafficshape.Conn.Context
 //@   ensures[locks-released] tableIdle() && sessionIdle(ctx.session)
 //@   ensures[response-modifier-runs-once-per-request-modifier] !ctx.session.hijacked ==> nRes - old(nRes) == nReq - old(nReq)
-//@   ensures[at-most-one-upstream-contact-per-exchange] nUp - old(nUp) <= nReq - old(nReq)
-//@   ensures[one-response-written-per-exchange] !ctx.session.hijacked ==> nWrite - old(nWrite) == nReq - old(nReq)
+//@   ensures[at-most-one-upstream-contact-per-exchange] nUp - old(nUp) <= nReq - old(nReq) && nReq >= old(nReq)
+//@   ensures[every-exchange-is-answered-or-the-connection-ends] !ctx.session.hijacked ==> nWrite - old(nWrite) == nReq - old(nReq) || closeable(result)
+//@   ensures[never-more-than-one-response-per-exchange] nWrite - old(nWrite) <= nReq - old(nReq)
 //@   ensures[no-exchange-means-the-connection-ends] nReq == old(nReq) ==> closeable(result)
 //@   ensures[hijacked-connection-is-not-served-again] ctx.session.hijacked ==> closeable(result)
 //@   ensures[failed-write-closes-the-connection] (wroteErr && !old(wroteErr)) || (brw.Writer.gFailed && !old(brw.Writer.gFailed)) ==> closeable(result)
@@ -234,6 +236,7 @@ package martian
 //@   noframe
 //@   requires proxyReady(p) && ctxIdle(ctx) && sessionIdle(session) && session == ctx.session && conn != nil && brw != nil && brw.Writer != nil && brw.Reader != nil
 //@   requires req != nil && req.URL != nil && req.Header != nil && has(ctxs, req) && ctxs[req] == ctx && allocated(req)
+//@   requires !session.hijacked
 //@   modifies nReq, nRes, nUp, nWrite, bufio.Writer.gFlushed, bufio.Writer.gFailed, wroteErr, gotReq, up0, res0, wr0, didLink, closingSeen, nConnClose, nWarn, lastWarnHeader, ctxs[*], ctxmu.wheld, ctxmu.rheld
 //@   modifies http.Request.*, url.URL.*, http.Response.*, Session.hijacked, Session.secure, Session.conn, Session.brw, Context.skipRoundTrip, Context.skipLogging, Context.apiRequest
 //@   modifies sync.RWMutex.wheld, sync.RWMutex.rheld, dialN, lastDialed, lastDialErr, tls.Conn.gclosed, trafficshape.Conn.Context
@@ -241,6 +244,8 @@ package martian
 //@   ensures[connect-runs-the-request-modifier] nReq >= old(nReq) + 1
 //@   ensures[response-modifier-runs-once-per-request-modifier] !session.hijacked ==> nRes - old(nRes) == nReq - old(nReq)
 //@   ensures[at-most-one-upstream-contact-per-exchange] nUp - old(nUp) <= nReq - old(nReq)
-//@   ensures[one-response-written-per-exchange] !session.hijacked ==> nWrite - old(nWrite) == nReq - old(nReq)
+//@   ensures[every-exchange-is-answered-or-the-connection-ends] !session.hijacked ==> nWrite - old(nWrite) == nReq - old(nReq) || closeable(result)
+//@   ensures[never-more-than-one-response-per-exchange] nWrite - old(nWrite) <= nReq - old(nReq)
+//@   ensures[failed-write-closes-the-connection] (wroteErr && !old(wroteErr)) || (brw.Writer.gFailed && !old(brw.Writer.gFailed)) ==> closeable(result)
 //@   ensures[hijacked-connection-is-not-served-again] session.hijacked ==> closeable(result)
 //@   at call 0 of ModifyRequest before assert[no-upstream-contact-before-request-modifier] nUp == old(nUp)
